@@ -321,13 +321,19 @@ KEYS = {
     "F6": b"\x1b[17~", "F7": b"\x1b[18~", "F8": b"\x1b[19~", "F9": b"\x1b[20~", "F10": b"\x1b[21~", "F11": b"\x1b[23~", "F12": b"\x1b[24~",
     "End": b"\x1b[F", "PageDown": b"\x1b[6~", "Insert": b"\x1b[2~", "Delete": b"\x1b[3~", "Backspace": b"\x7f",
     "ShiftF1": b"\x1b[1;2P", "CtrlUp": b"\x1b[1;5A", "AltLeft": b"\x1b[1;3D", "ShiftTab": b"\x1b[Z", "CtrlA": b"\x01", "CtrlL": b"\x0c",
+    # events of newer terminals / protocols (none of them a quit request): focus reports, key release and
+    # repeat events in the kitty encoding, keys with the Super modifier
+    "FocusIn": b"\x1b[I", "FocusOut": b"\x1b[O", "KittyReleaseX": b"\x1b[120;1:3u", "KittyRepeatDown": b"\x1b[1;1:2B", "KittyReleaseEnter": b"\x1b[13;1:3u",
+    "KittyPressTab": b"\x1b[9;1:1u", "SuperA": b"\x1b[97;9u", "KittyReleaseF3": b"\x1b[13;1:3~",
     "AltX": b"\x1bx", "0": b"0", "9": b"9", "Q_upper_is_not_q": b"Z", "?": b"?", "euro": "\u20ac".encode(), "a-umlaut": "\u00e4".encode(),
 }
 
 
 def mouse(kind, col, row):
     """SGR (1006) mouse report; col/row 0-based."""
-    b, suffix = {"down": (0, "M"), "up": (0, "m"), "drag": (32, "M"), "scrollup": (64, "M"), "scrolldown": (65, "M"), "rightdown": (2, "M"), "move": (35, "M")}[kind]
+    b, suffix = {"down": (0, "M"), "up": (0, "m"), "drag": (32, "M"), "scrollup": (64, "M"), "scrolldown": (65, "M"), "rightdown": (2, "M"), "move": (35, "M"),
+                 "middledown": (1, "M"), "middleup": (1, "m"), "rightup": (2, "m"), "rightdrag": (34, "M"), "scrollleft": (66, "M"), "scrollright": (67, "M"),
+                 "shiftdown": (4, "M"), "ctrldrag": (48, "M"), "altscrollup": (72, "M")}[kind]
     return f"\x1b[<{b};{col + 1};{row + 1}{suffix}".encode()
 
 
